@@ -1,6 +1,7 @@
 import LinfaSpec.Proofs.Determinism
 import LinfaSpec.Proofs.DeterminismOrder
 import LinfaSpec.Proofs.DeterminismVocab
+import Mathlib.Data.List.Lex
 
 /-!
 # C20 — same data, parameters and seed give bit-identical results on every run
@@ -71,44 +72,94 @@ example : parForEvents (fun i => 10 * i + 1)
   decide
 
 section KMeans
-variable {α : Type} [Add α] [Sub α] [Mul α] [LT α] [DecidableLT α] [OfNat α 0]
+variable {α : Type} [Add α] [LT α] [DecidableLT α] [OfNat α 0]
+set_option linter.unusedSectionVars false
 
 /-- `update_cluster_memberships`: for every schedule the memberships are, row by row, the index
-`closest_centroid` returns — the initial contents of the array do not matter either. -/
-theorem update_memberships_schedule_independent (cents obs : List (List α)) (sched : List Nat)
-    (init : List Nat) (hall : ∀ i, i < init.length → i ∈ sched) :
-    updateMemberships cents obs sched init =
-      (List.range init.length).map fun i => (closestOf cents obs i).1 :=
+`closest_centroid` returns — the initial contents of the array do not matter either.  `dist` is the
+metric of the parameter set (any function: `sqDist`, `l1Dist`, …). -/
+theorem update_memberships_schedule_independent (dist : List α → List α → α) (cents obs : List (List α))
+    (sched : List Nat) (init : List Nat) (hall : ∀ i, i < init.length → i ∈ sched) :
+    updateMemberships dist cents obs sched init =
+      (List.range init.length).map fun i => (closestOf dist cents obs i).1 :=
   parFor_schedule_independent _ sched init hall
 
 /-- `update_min_dists` -/
-theorem update_min_dists_schedule_independent (cents obs : List (List α)) (sched : List Nat)
-    (init : List α) (hall : ∀ i, i < init.length → i ∈ sched) :
-    updateMinDists cents obs sched init =
-      (List.range init.length).map fun i => (closestOf cents obs i).2 :=
+theorem update_min_dists_schedule_independent (dist : List α → List α → α) (cents obs : List (List α))
+    (sched : List Nat) (init : List α) (hall : ∀ i, i < init.length → i ∈ sched) :
+    updateMinDists dist cents obs sched init =
+      (List.range init.length).map fun i => (closestOf dist cents obs i).2 :=
   parFor_schedule_independent _ sched init hall
 
 /-- `update_memberships_and_dists` (two zipped output arrays) -/
-theorem update_both_schedule_independent (cents obs : List (List α)) (sched : List Nat)
-    (init : List (Nat × α)) (hall : ∀ i, i < init.length → i ∈ sched) :
-    updateBoth cents obs sched init =
-      (List.range init.length).map fun i => closestOf cents obs i :=
+theorem update_both_schedule_independent (dist : List α → List α → α) (cents obs : List (List α))
+    (sched : List Nat) (init : List (Nat × α)) (hall : ∀ i, i < init.length → i ∈ sched) :
+    updateBoth dist cents obs sched init =
+      (List.range init.length).map fun i => closestOf dist cents obs i :=
   parFor_schedule_independent _ sched init hall
+
+/-- `update_memberships_and_dists` below the task level: the function the driver runs for
+`parfor mode=events` gives the same array under every interleaving of the compute / write events
+in which each task computes before it writes — and that array is the one of the task-level loop
+under any complete schedule. -/
+theorem update_both_events_interleaving_independent (dist : List α → List α → α)
+    (cents obs : List (List α)) (evs : List Event) (sched : List Nat) (init init' : List (Nat × α))
+    (hlen : init.length = init'.length)
+    (hev : ∀ i, i < init.length → ∃ p1 p2 post,
+      evs = p1 ++ Event.compute i :: p2 ++ Event.write i :: post)
+    (hall : ∀ i, i < init'.length → i ∈ sched) :
+    updateBothEvents dist cents obs evs init = updateBoth dist cents obs sched init' := by
+  unfold updateBothEvents
+  rw [parForEvents_interleaving_independent _ evs init hev,
+    update_both_schedule_independent dist cents obs sched init' hall, hlen]
 
 /-- **The reduction after the join is deterministic**: `dists.sum()` runs sequentially on an
 array that no longer depends on the schedule, so two runs under any two schedules (and any
 initial garbage of the same length) give the same sum — term by term the same additions. -/
-theorem reduction_after_join_deterministic (cents obs : List (List α)) (s₁ s₂ : List Nat)
-    (init₁ init₂ : List α) (hlen : init₁.length = init₂.length)
+theorem reduction_after_join_deterministic (dist : List α → List α → α) (cents obs : List (List α))
+    (s₁ s₂ : List Nat) (init₁ init₂ : List α) (hlen : init₁.length = init₂.length)
     (h₁ : ∀ i, i < init₁.length → i ∈ s₁) (h₂ : ∀ i, i < init₂.length → i ∈ s₂) :
-    sumAfterJoin (updateMinDists cents obs s₁ init₁) = sumAfterJoin (updateMinDists cents obs s₂ init₂) := by
-  rw [update_min_dists_schedule_independent cents obs s₁ init₁ h₁,
-    update_min_dists_schedule_independent cents obs s₂ init₂ h₂, hlen]
+    sumAfterJoin (updateMinDists dist cents obs s₁ init₁) =
+      sumAfterJoin (updateMinDists dist cents obs s₂ init₂) := by
+  rw [update_min_dists_schedule_independent dist cents obs s₁ init₁ h₁,
+    update_min_dists_schedule_independent dist cents obs s₂ init₂ h₂, hlen]
+
+/-- **Inertia and cluster counts of `fit_with` / of a restart of `fit`** (the function the driver
+runs for `fitsum`, compared with `KMeans::inertia()` and `cluster_count()` of the real fit): under
+any two complete schedules and from any two buffers of equal length the assignment step followed by
+the sequential `dists.sum()` gives the same counts and the same sum. -/
+theorem fit_with_step_schedule_independent (dist : List α → List α → α) (cents obs : List (List α))
+    (s₁ s₂ : List Nat) (init₁ init₂ : List (Nat × α)) (hlen : init₁.length = init₂.length)
+    (h₁ : ∀ i, i < init₁.length → i ∈ s₁) (h₂ : ∀ i, i < init₂.length → i ∈ s₂) :
+    fitWithStep dist cents obs s₁ init₁ = fitWithStep dist cents obs s₂ init₂ := by
+  unfold fitWithStep
+  rw [update_both_schedule_independent dist cents obs s₁ init₁ h₁,
+    update_both_schedule_independent dist cents obs s₂ init₂ h₂, hlen]
+
+/-- what `fitWithStep` returns, spelled out: the counts of the sequential assignment and the
+left-to-right sum of the sequential distances -/
+theorem fit_with_step_eq_sequential (dist : List α → List α → α) (cents obs : List (List α))
+    (sched : List Nat) (init : List (Nat × α)) (hall : ∀ i, i < init.length → i ∈ sched) :
+    fitWithStep dist cents obs sched init =
+      (clusterCount cents.length ((List.range init.length).map fun i => (closestOf dist cents obs i).1),
+       sumAfterJoin ((List.range init.length).map fun i => (closestOf dist cents obs i).2)) := by
+  unfold fitWithStep
+  rw [update_both_schedule_independent dist cents obs sched init hall]
+  simp [List.map_map, Function.comp_def]
 
 end KMeans
 
-example : updateBoth (α := Int) [[0, 0], [4, 4], [0, 0]] [[1, 1], [3, 3], [2, 2]] [1, 2, 0]
+example : updateBoth (α := Int) sqDist [[0, 0], [4, 4], [0, 0]] [[1, 1], [3, 3], [2, 2]] [1, 2, 0]
     [(9, -1), (9, -1), (9, -1)] = [(0, 2), (1, 2), (0, 8)] := by decide
+
+/-- L1 metric, events fully interleaved (c2 c0 w2 c1 w0 w1), and the `fit_with` step under two schedules -/
+example : updateBothEvents (α := Int) l1Dist [[0, 0], [4, 4]] [[1, 1], [3, 3], [2, 2]]
+      [Event.compute 2, Event.compute 0, Event.write 2, Event.compute 1, Event.write 0, Event.write 1]
+      [(9, -1), (9, -1), (9, -1)] = [(0, 2), (1, 2), (0, 4)] ∧
+    fitWithStep (α := Int) l1Dist [[0, 0], [4, 4]] [[1, 1], [3, 3], [2, 2]] [2, 0, 1] [(9, -1), (9, -1), (9, -1)]
+      = ([2, 1], 8) ∧
+    fitWithStep (α := Int) l1Dist [[0, 0], [4, 4]] [[1, 1], [3, 3], [2, 2]] [0, 1, 2, 1] [(7, 5), (7, 5), (7, 5)]
+      = ([2, 1], 8) := by decide
 
 /-! ## 2. Generator cloned per fit -/
 
@@ -125,6 +176,21 @@ theorem rng_clone_pure {ρ δ μ : Type} (run : ρ → δ → μ × ρ) (g : ρ)
 example : fitSeq (fitCloned fun (g : Nat) (d : Nat) => (g + d, g + 1)) 42 [5, 5, 5] = [47, 47, 47] ∧
     fitSeq (fitShared fun (g : Nat) (d : Nat) => (g + d, g + 1)) 42 [5, 5, 5] = [47, 48, 49] := by
   decide
+
+/-- **The session the driver plays** (`fitseq`, compared with one real parameter object fitted on
+the data sets `seq` one after another): whatever the table of the training procedure — in
+particular however much its result depends on the generator state — every fit returns the entry of
+generator state 0, i.e. what a first fit with a fresh parameter object returns. -/
+theorem fit_session_history_free (tbl : List (List Nat)) (seq : List Nat) :
+    fitSession tbl seq = seq.map fun d => (tbl.getD 0 []).getD d 0 := by
+  unfold fitSession
+  rw [rng_clone_pure]
+  rfl
+
+/-- non-vacuity and contrast: a procedure whose result depends on the generator state (rows differ);
+sharing the generator would return the row-1 entry for the second fit -/
+example : fitSession [[11, 12], [21, 22]] [0, 1, 0] = [11, 12, 11] ∧
+    fitSeq (fitShared (tableRun [[11, 12], [21, 22]])) 0 [0, 1] = [11, 22] := by decide
 
 /-! ## 3. Hash-map folds -/
 
@@ -200,6 +266,15 @@ theorem sorted_labels_perm_invariant (cols : List (List κ)) (l : List κ) (p : 
 theorem sorted_combined_labels_perm_invariant (a b : List (List κ)) (l : List κ)
     (p : l ~ labelsOf (a ++ b)) : sortLabels l = sortedCombinedLabels a b :=
   sortLabels_perm p
+
+/-- **Members of a confusion matrix** (`classes = combined_labels(truth); classes.sort();` reversed
+when there are exactly two): whatever order the hash set hands the combined labels out in, the
+`members` are those of the model function the driver runs for `labels … cm=`. -/
+theorem cm_members_perm_invariant (pred truth : List κ) (l : List κ)
+    (p : l ~ labelsOf ([pred] ++ [truth])) :
+    (if (sortLabels l).length = 2 then (sortLabels l).reverse else sortLabels l) = cmMembers pred truth := by
+  unfold cmMembers
+  rw [sorted_combined_labels_perm_invariant [pred] [truth] l p]
 
 end Labels
 
@@ -308,6 +383,30 @@ theorem fit_vocabulary_uncapped_hash_independent {s₁ s₂ : List (List κ)}
   exact (build_vocabulary_hash_independent h).filter _
 
 end Vocabulary
+
+/-! ### The instance the driver runs: words are token lists (`List Nat`) under core's `List.lt` -/
+
+/-- **Bridge to the driver.**  The driver instantiates the vocabulary model at `κ = List Nat` with
+core Lean's `DecidableEq`, `LT` (`List.lt`, lexicographic) and `DecidableLT` instances — spelled
+out here, no `LinearOrder` in sight; the general theorem applies because Mathlib's linear order on
+lists is that very relation. -/
+theorem fit_vocabulary_hash_independent_driver {s₁ s₂ : List (List (List Nat))}
+    (h : List.Forall₂ (· ~ ·) s₁ s₂) (minAbs maxAbs : Nat) (stop : List (List Nat)) (cap : Nat) :
+    @fitVocabulary (List Nat) instDecidableEqList List.instLT List.decidableLT s₁ minAbs maxAbs stop (some cap) =
+      @fitVocabulary (List Nat) instDecidableEqList List.instLT List.decidableLT s₂ minAbs maxAbs stop (some cap) := by
+  have := fit_vocabulary_hash_independent (κ := List Nat) h minAbs maxAbs stop cap
+  convert this using 2 <;> rfl
+
+/-- same bridge without a cap -/
+theorem fit_vocabulary_uncapped_hash_independent_driver {s₁ s₂ : List (List (List Nat))}
+    (h : List.Forall₂ (· ~ ·) s₁ s₂) (minAbs maxAbs : Nat) (stop : List (List Nat)) :
+    @fitVocabulary (List Nat) instDecidableEqList List.instLT List.decidableLT s₁ minAbs maxAbs stop none ~
+      @fitVocabulary (List Nat) instDecidableEqList List.instLT List.decidableLT s₂ minAbs maxAbs stop none := by
+  have := fit_vocabulary_uncapped_hash_independent (κ := List Nat) h minAbs maxAbs stop
+  convert this using 2 <;> rfl
+
+example : List.Forall₂ (· ~ ·) [[[(1 : Nat)], [1, 2]], [[2]]] [[[1, 2], [1]], [[2]]] :=
+  .cons (by decide) (.cons (by decide) .nil)
 
 /-- non-vacuity: two words first seen in one document, the hash set iterated both ways: the raw
 vocabularies differ in their insertion indexes, their (word, frequency) pairs are permutations -/
